@@ -15,11 +15,12 @@ import DustVerif.Proofs.DeriveLemmas
     * `C40_describe_union`          discriminator member, labels and default flags of a union.
 
     FALSE for the code as it is (witness + replay in vlib/props/C40.py corpus + known finding):
-    * ids distinct for every accepted declaration          `C40_ids_distinct_counterexample`            D-gen-1
     * explicit ids respected in final/appendable structs   `C40_explicit_ids_counterexample`            D-gen-2
     * enumerators published                                `C40_enum_literals_counterexample`           D-gen-3
-    * `Vec<i8>` described as sequence of INT8              `C40_vec_i8_counterexample`                  D-gen-4
-    * round trip for unions whose default is not last      `C40_roundtrip_default_first_counterexample` D-gen-5
+    REPAIRED (model = repaired code; the old behaviour is kept as `…_old_counterexample` on an `…Old` model function):
+    * ids distinct for every accepted declaration          `C40_ids_distinct`                           D-gen-1
+    * `Vec<i8>` described as sequence of INT8              `C40_describe_vec_elem`                      D-gen-4
+    * round trip for unions whose default is not last      `C40_roundtrip_default_first`                D-gen-5
     * round trip with colliding (implicit) labels          `C40_roundtrip_label_collision_counterexample` D-gen-6/7 -/
 namespace DustVerif.Derive
 
@@ -28,8 +29,8 @@ namespace DustVerif.Derive
 /-- `create_sample(create_dynamic_sample(v))` returns `v` with the non_serialized members replaced by their default,
     for EVERY declaration that is supported (compiles, inside the modelled language) and well-formed (`good`: distinct
     member ids, `Option` members marked optional, union labels select their own variant) and EVERY value of it.
-    Excluded by `good`, each with its own counterexample below: duplicate ids (D-gen-1), a `default` variant before
-    another one (D-gen-5), colliding first labels (D-gen-6/7), `None` in a bare `Option` (documented panic). -/
+    Excluded by `good`, each with its own counterexample below: colliding first labels
+    (D-gen-6/7), `None` in a bare `Option` (documented panic). The position of a `default` variant no longer matters (D-gen-5 repaired). -/
 theorem C40_roundtrip (t : Ty) (v : Val) (hd : t.isDecl = true) (hs : supported t = true) (hg : good t = true)
     (ht : hasType t v = true) : roundTrip t v = .ok (scrub t v) := by
   obtain ⟨x, h1, h2⟩ := rtTy t v hs hg ht (by cases t <;> simp [Ty.isDecl, Ty.isOpt] at hd ⊢)
@@ -93,29 +94,53 @@ def exDup : Ty := .struct { ident := "C1Dup", rename := none, ext := .mutable, n
   (.cons { name := "b", key := false, id := none, optional := false, nonSerialized := false, hashid := false } (.prim .u16)
   (.cons { name := "c", key := false, id := some 1, optional := false, nonSerialized := false, hashid := false } (.prim .u32) .nil)))
 
-/-- D-gen-1: `a`, `b`, `#[dust_dds(id = 1)] c` in a mutable struct: `b` and `c` both get id 1 and the macro accepts it -/
-theorem C40_ids_distinct_counterexample :
-    supported exDup = true ∧ memberIds { ident := "C1Dup", rename := none, ext := .mutable, nested := false, tuple := false }
+/-- regression witness D-gen-1 — AS IT WAS: `a`, `b`, `#[dust_dds(id = 1)] c` in a mutable struct: `b` and `c` both get id 1 and
+    the macro accepted it (every value then decoded to `None`); REPAIRED (fixes/D-gen-1.patch): it is a compile error now -/
+theorem C40_ids_distinct_old_counterexample :
+    supportedStructOld { ident := "C1Dup", rename := none, ext := .mutable, nested := false, tuple := false }
       (.cons { name := "a", key := false, id := none, optional := false, nonSerialized := false, hashid := false } (.prim .u8)
       (.cons { name := "b", key := false, id := none, optional := false, nonSerialized := false, hashid := false } (.prim .u16)
       (.cons { name := "c", key := false, id := some 1, optional := false, nonSerialized := false, hashid := false } (.prim .u32) .nil)))
-      = [0, 1, 1] := by decide
-
-/-- … and every value of that type is lost: `create_sample` returns `None` -/
-theorem C40_roundtrip_duplicate_ids_counterexample :
-    hasType exDup (.struct [.i 1, .i 2, .i 3]) = true ∧ roundTrip exDup (.struct [.i 1, .i 2, .i 3]) = .none := by
-  refine ⟨by decide, rfl⟩
+      = true ∧
+    memberIds { ident := "C1Dup", rename := none, ext := .mutable, nested := false, tuple := false }
+      (.cons { name := "a", key := false, id := none, optional := false, nonSerialized := false, hashid := false } (.prim .u8)
+      (.cons { name := "b", key := false, id := none, optional := false, nonSerialized := false, hashid := false } (.prim .u16)
+      (.cons { name := "c", key := false, id := some 1, optional := false, nonSerialized := false, hashid := false } (.prim .u32) .nil)))
+      = [0, 1, 1] ∧
+    supported exDup = false := by decide
 
 def exDefaultFirst : Ty := .union { ident := "C5Union", rename := none, ext := .final, nested := false, disc := .i32, discKey := false }
   (.data { name := "Dflt", cases := [], isDefault := true, field := none } (.prim .u8)
   (.data { name := "X", cases := [5], isDefault := false, field := none } (.prim .i16) .nil))
 
-/-- D-gen-5: `#[dust_dds(default)] Dflt(u8), #[dust_dds(case = 5)] X(i16)`: the `_` arm of `Dflt` stands first in the
-    generated `match`, so `X(3)` is read through `Dflt`'s arm, whose member is absent: `None` -/
-theorem C40_roundtrip_default_first_counterexample :
-    supported exDefaultFirst = true ∧ hasType exDefaultFirst (.unionv 1 (some (.i 3))) = true ∧
-      roundTrip exDefaultFirst (.unionv 1 (some (.i 3))) = .none := by
-  refine ⟨by decide, by decide, rfl⟩
+/-- D-gen-5, REPAIRED (fixes/D-gen-5.patch: the `_` arm is emitted last): `#[dust_dds(default)] Dflt(u8), #[dust_dds(case = 5)] X(i16)`
+    is well-formed — a default variant may stand anywhere — and `X(3)` round-trips -/
+theorem C40_roundtrip_default_first :
+    supported exDefaultFirst = true ∧ good exDefaultFirst = true ∧
+      roundTrip exDefaultFirst (.unionv 1 (some (.i 3))) = .ok (.unionv 1 (some (.i 3))) ∧
+      roundTrip exDefaultFirst (.unionv 0 (some (.i 7))) = .ok (.unionv 0 (some (.i 7))) := by
+  refine ⟨by decide, by decide, ?_, ?_⟩
+  · rw [C40_roundtrip exDefaultFirst _ (by decide) (by decide) (by decide) (by decide)]; rfl
+  · rw [C40_roundtrip exDefaultFirst _ (by decide) (by decide) (by decide) (by decide)]; rfl
+
+/-- D-gen-5 REPAIRED — the FULL statement for unions: EVERY union whose variants write pairwise distinct labels (first `case`, or
+    index + 1) and which has at most one `default` variant — at ANY position — converts every value to dynamic data and back
+    (payload types well-formed, no bare `Option` payload: `goodVariants`). Before the fix this needed "no variant after the default one". -/
+theorem C40_roundtrip_union (h : UnionHdr) (us : Variants) (v : Val) (hs : supported (.union h us) = true)
+    (hl : labelsDistinct us = true) (hg : goodVariants us = true) (ht : hasType (.union h us) v = true) :
+    roundTrip (.union h us) v = .ok (scrub (.union h us) v) :=
+  C40_roundtrip (.union h us) v rfl hs (by simp [good, selects_of_labelsDistinct us hl, hg]) ht
+
+example : labelsDistinct (match exDefaultFirst with | .union _ us => us | _ => .nil) = true ∧
+    labelsDistinct (match exUnion with | .union _ us => us | _ => .nil) = true := by decide
+
+/-- regression witness: AS IT WAS before the fix, the `_` arm of `Dflt` stood first in the generated `match`, so `X(3)` was read
+    through `Dflt`'s arm, whose member is absent: `None` (replayed on the unrepaired macro in round 1) -/
+theorem C40_roundtrip_default_first_old_counterexample :
+    roundTripUnionOld { ident := "C5Union", rename := none, ext := .final, nested := false, disc := .i32, discKey := false }
+      (.data { name := "Dflt", cases := [], isDefault := true, field := none } (.prim .u8)
+      (.data { name := "X", cases := [5], isDefault := false, field := none } (.prim .i16) .nil))
+      (.unionv 1 (some (.i 3))) = .none := rfl
 
 def exCollide : Ty := .union { ident := "C6Union", rename := none, ext := .final, nested := false, disc := .u8, discKey := false }
   (.data { name := "A", cases := [2], isDefault := false, field := none } (.prim .u8)
@@ -226,6 +251,16 @@ theorem C40_ids_distinct_partial (h : StructHdr) (fs : Fields) (hh : noHash fs.a
 example : noHash (match exOuter with | .struct _ fs => fs.attrs | _ => []) = true ∧
     explicitAscending 0 (match exOuter with | .struct _ fs => fs.attrs | _ => []) = true := by decide
 
+/-- REPAIRED (fixes/D-gen-1.patch) — FULL statement: the member ids of EVERY struct the macro accepts are pairwise distinct
+    (explicit, sequential and hashed ids alike: a repeated id is a compile error) -/
+theorem C40_ids_distinct (h : StructHdr) (fs : Fields) (hs : supported (.struct h fs) = true) :
+    nodupNat ((describe (.struct h fs)).infos.map (·.id)) = true := by
+  rw [C40_describe_ids]
+  simp only [supported, Bool.and_eq_true] at hs
+  exact hs.1.2
+
+example : supported exOuter = true := by decide
+
 /-- a union publishes the discriminator as member 0 (key flag as declared, must-understand) and one member per variant
     with id = index = position + 1 and the declared default flag -/
 theorem C40_describe_union (h : UnionHdr) (us : Variants) :
@@ -270,9 +305,15 @@ theorem C40_describe_enum (h : EnumHdr) :
     (describe (.enum h)).kind = .enum ∧ (describe (.enum h)).name = h.rename.getD h.ident ∧
     (describe (.enum h)).nested = h.nested ∧ (describe (.enum h)).ext = .final := ⟨rfl, rfl, rfl, rfl⟩
 
-/-- D-gen-4 — `Vec<i8>` publishes UINT8 as its element kind (xtypes/type_support.rs:382); `[i8; N]` and `Vec<u8>` are right -/
-theorem C40_vec_i8_counterexample :
-    (match describe (.vec (.prim .i8)) with | .mk _ _ _ _ _ (.some e) _ _ => e.kind | _ => .none) = .uint8 ∧
-    (match describe (.arr (.prim .i8) 2) with | .mk _ _ _ _ _ (.some e) _ _ => e.kind | _ => .none) = .int8 := by decide
+/-- D-gen-4, REPAIRED (fixes/D-gen-4.patch): a `Vec<P>` of ANY primitive publishes a SEQUENCE whose element type is `P`'s own type,
+    like `[P; N]` does -/
+theorem C40_describe_vec_elem (p : Prim) (n : Nat) :
+    describe (.vec (.prim p)) = .mk .sequence "" .final false [U32MAX] (.some (primDesc p)) .none .nil ∧
+    describe (.arr (.prim p) n) = .mk .array "" .final false [n] (.some (primDesc p)) .none .nil := ⟨rfl, rfl⟩
+
+example : (match describe (.vec (.prim .i8)) with | .mk _ _ _ _ _ (.some e) _ _ => e.kind | _ => .none) = .int8 := by decide
+
+/-- regression witness: AS IT WAS, `impl Type for Vec<i8>` named `u8::TYPE` (xtypes/type_support.rs:382) -/
+theorem C40_vec_i8_old_counterexample : primKind (vecPrimElemOld .i8) = .uint8 ∧ primKind (vecPrimElemOld .u8) = .uint8 := by decide
 
 end DustVerif.Derive
